@@ -11,6 +11,20 @@ def c10_core(stride=1):
         yield ci, code, ("c10core", label)
 
 
+def c10_layouts():
+    """every filler at every gap site x target x key-values{none, two} x style (default context)"""
+    import c10
+    ix = {n: i for i, n in enumerate(c10.NAMES)}
+    for fi in range(len(c10.FILLCFG)):
+        for ti in range(len(gen.TARGETS)):
+            for ki in (c10.KVS.index([]), c10.KVS.index(['k1 = 1', 'k2'])):
+                for si in (0, 1):
+                    t = list(c10.DEFAULT)
+                    t[ix["fill"]], t[ix["target"]], t[ix["kvs"]], t[ix["style"]] = fi, ti, ki, si
+                    ci, code, exp, label = c10.build_one(tuple(t))
+                    yield ci, code, ("c10layout", label)
+
+
 def c10_pairs():
     import c10
     for t in c10.pairs(2):
